@@ -1135,3 +1135,245 @@ func CVI(rc *RC) {
 	}
 	rc.S.Count("CVI.branches", n)
 }
+
+// ---------------------------------------------------------------------------------------------
+// I16: the direction setters of all iterator types do the same two things. SetReverse and
+// SetForward are methods of the Iterator interface; FlatIterator and FlatSparseIterator write
+// their reverse flag and rewind themselves. Every iterator type that has a reverse flag of its
+// own must do both in its setters: the flag is read by its NextValid/NextInvalid (sign of the
+// skip count), and its own stepping state (done, last indices) belongs to the old direction
+// (finding 89: MultIterator only forwarded the call to its blocks).
+func I16(rc *RC) {
+	rc.S.Declare("I16", "direction setters agree across iterator types: SetReverse/SetForward of every type with a reverse field of its own write that field (true/false) and call Reset() on the receiver on every path", 4)
+	for _, fi := range rc.P.SortedFuncs() {
+		if fi.Pkg != rc.P.Root || fi.Decl == nil || fi.Decl.Body == nil || fi.Decl.Recv == nil || strings.HasSuffix(fi.File, "_test.go") {
+			continue
+		}
+		name := fi.Obj.Name()
+		if name != "SetReverse" && name != "SetForward" {
+			continue
+		}
+		sig := fi.Obj.Type().(*types.Signature)
+		rt := sig.Recv().Type()
+		if p, ok := rt.(*types.Pointer); ok {
+			rt = p.Elem()
+		}
+		st, ok := rt.Underlying().(*types.Struct)
+		if !ok {
+			continue
+		}
+		own := false
+		for i := 0; i < st.NumFields(); i++ {
+			if st.Field(i).Name() == "reverse" && !st.Field(i).Embedded() {
+				own = true
+			}
+		}
+		if !own {
+			continue
+		}
+		pos := rc.P.Pos(fi.Decl.Pos())
+		c := ir.NewCanon(rc.P.Fset, fi.Pkg.TypesInfo, ir.Options{ParamNames: true, KeepNames: true, NoSubst: true})
+		paths, ok := ir.EnumPaths(c.Func(fi.Decl), 500)
+		if !ok {
+			rc.S.Undec("I16", fi.Key, pos, "too many paths")
+			continue
+		}
+		want := "true"
+		if name == "SetForward" {
+			want = "false"
+		}
+		var bad []string
+		for _, p := range paths {
+			if p.Exit == "panic" {
+				continue
+			}
+			flag, reset := "", false
+			for _, s := range p.Steps {
+				if (s.Kind == "store" || s.Kind == "let") && s.Target == "$r.reverse" {
+					flag = s.Value
+				}
+				if strings.Contains(s.Head, "$r.Reset()") {
+					reset = true
+				}
+			}
+			switch {
+			case flag == "":
+				bad = append(bad, fmt.Sprintf("the path [%s] does not write the receiver's reverse flag: its NextValid/NextInvalid keep counting in the old direction", strings.Join(p.Guards, " && ")))
+			case flag != want:
+				bad = append(bad, fmt.Sprintf("the path [%s] writes reverse = %s", strings.Join(p.Guards, " && "), flag))
+			}
+			if !reset {
+				bad = append(bad, fmt.Sprintf("the path [%s] does not call Reset() on the receiver: its own exhaustion flag and last indices belong to the old direction (after a complete walk the switched iterator yields nothing)", strings.Join(p.Guards, " && ")))
+			}
+		}
+		if len(bad) > 0 {
+			rc.S.Viol("I16", fi.Key, pos, strings.Join(uniq(bad), "; ")).Sig = "setter incomplete"
+		} else {
+			rc.S.Ok("I16", fi.Key, pos, "writes reverse = "+want+" and rewinds the receiver on every path")
+		}
+	}
+}
+
+// ---------------------------------------------------------------------------------------------
+// F9: decoding into a used receiver. A decoder overwrites what the wire format carries; what
+// it does not carry must not survive from the receiver's previous contents. (a) Every decoder
+// clears the saved access pattern and the transposition axes: a pending lazy transposition of
+// the old contents would be "undone" by the next T()/UT() into a pattern of another shape
+// (findings 87, 90). (b) Where a decoder sets the data order by a switch over the serialised
+// order, every case assigns it - an empty case keeps the receiver's old order (finding 90:
+// protobuf's row-major case, while flatbuffers' assigns 0).
+var f9Decoders = []string{"tensor.(*Dense).GobDecode", "tensor.(*Dense).PBDecode", "tensor.(*Dense).FBDecode", "tensor.(*Dense).ReadCSV", "tensor.(*Dense).ReadNpy"}
+
+func F9(rc *RC) {
+	rc.S.Declare("F9", "decoders reset the receiver: each of GobDecode/PBDecode/FBDecode/ReadCSV/ReadNpy clears the saved access pattern (old) and the transposition axes; every case of a switch that sets the data order from the serialised order assigns it", 5)
+	for _, key := range f9Decoders {
+		fi := anchor(rc, "F9", key)
+		if fi == nil {
+			continue
+		}
+		pos := rc.P.Pos(fi.Decl.Pos())
+		c := ir.NewCanon(rc.P.Fset, fi.Pkg.TypesInfo, ir.Options{ParamNames: true, KeepNames: true, NoSubst: true})
+		tree := c.Func(fi.Decl)
+		clearsOld, clearsAxes := false, false
+		var emptyCases []string
+		walkNodes(tree, func(n *ir.Node) {
+			h := n.Head
+			if strings.Contains(h, "$r.old.zero()") || strings.Contains(h, "$r.old.zeroOnly()") || ((n.Kind == "store" || n.Kind == "let") && n.Target == "$r.old") {
+				clearsOld = true
+			}
+			if (n.Kind == "store" || n.Kind == "let") && n.Target == "$r.transposeWith" && n.Value == "nil" {
+				clearsAxes = true
+			}
+			if n.Kind == "switch" {
+				sets := 0
+				var empties []string
+				for _, cs := range n.Kids {
+					if strings.Contains(ir.Render(cs.Kids), "$r.o = ") || strings.Contains(ir.Render(cs.Kids), "$r.AP.o = ") {
+						sets++
+					} else if cs.Head != "default" {
+						empties = append(empties, cs.Head)
+					}
+				}
+				if sets > 0 {
+					emptyCases = append(emptyCases, empties...)
+				}
+			}
+		})
+		var bad []string
+		if !clearsOld {
+			bad = append(bad, "the saved access pattern (old) of the receiver is never cleared: a lazy transposition pending on the previous contents survives the decode, and the next T()/UT() restores a pattern of the previous shape over the decoded data")
+		}
+		if !clearsAxes {
+			bad = append(bad, "the transposition axes (transposeWith) of the receiver are never cleared")
+		}
+		for _, cs := range emptyCases {
+			bad = append(bad, fmt.Sprintf("the data-order switch has a case (%s) that assigns no order: a receiver that was column-major stays column-major over row-major data", cs))
+		}
+		if len(bad) > 0 {
+			rc.S.Viol("F9", key, pos, strings.Join(bad, "; ")).Sig = fmt.Sprintf("old:%v axes:%v emptycases:%d", clearsOld, clearsAxes, len(emptyCases))
+		} else {
+			rc.S.Ok("F9", key, pos, "clears old and transposeWith; every data-order case assigns the order")
+		}
+	}
+}
+
+// ---------------------------------------------------------------------------------------------
+// HS: who may waive the destination's element type check. handleFuncOpts compares the element
+// type of a caller-supplied destination with the expected one only when its `strict` argument
+// is true (or AsSameType was given). The flag is false for the operations whose result type
+// is not the operand's: comparisons (Bool unless AsSameType) and the reducers' preparation.
+// Anywhere else a false waives the only element type check the destination gets, and the
+// kernels then write elements of one type into storage of another (finding 91: Clamp).
+var hsMayWaive = regexp.MustCompile(`^tensor\.\(StdEng\)\.(Gt|Gte|Lt|Lte|ElEq|ElNe|GtScalar|GteScalar|LtScalar|LteScalar|EqScalar|NeScalar|prepReduce)$`)
+
+func HS(rc *RC) {
+	rc.S.Declare("HS", "the destination's element type check is waived (handleFuncOpts strict=false) only by the comparisons and the reducers' preparation, whose result type is not the operand's", 30)
+	n := 0
+	for _, fi := range rc.P.SortedFuncs() {
+		if fi.Pkg != rc.P.Root || fi.Decl == nil || fi.Decl.Body == nil || strings.HasSuffix(fi.File, "_test.go") {
+			continue
+		}
+		info := fi.Pkg.TypesInfo
+		k := 0
+		ast.Inspect(fi.Decl.Body, func(m ast.Node) bool {
+			c, ok := m.(*ast.CallExpr)
+			if !ok {
+				return true
+			}
+			id, ok := c.Fun.(*ast.Ident)
+			if !ok || id.Name != "handleFuncOpts" || len(c.Args) < 4 {
+				return true
+			}
+			k++
+			n++
+			key := fmt.Sprintf("%s#handleFuncOpts%d", fi.Key, k)
+			tv, isConst := info.Types[c.Args[3]]
+			switch {
+			case !isConst || tv.Value == nil:
+				rc.S.Ok("HS", key, rc.P.Pos(c.Pos()), "strict is computed: "+types.ExprString(c.Args[3]))
+			case constant.BoolVal(tv.Value):
+				rc.S.Ok("HS", key, rc.P.Pos(c.Pos()), "strict")
+			case hsMayWaive.MatchString(fi.Key):
+				rc.S.Ok("HS", key, rc.P.Pos(c.Pos()), "waived by an operation whose result type differs from the operand's")
+			default:
+				rc.S.Viol("HS", key, rc.P.Pos(c.Pos()), fmt.Sprintf("%s passes strict=false: a WithReuse/WithIncr destination of another element type than %s is accepted, and the kernels write into it as if it had that type", fi.Key, types.ExprString(c.Args[1]))).Firm = true
+			}
+			return true
+		})
+	}
+	rc.S.Count("HS.handleFuncOpts-calls", n)
+}
+
+// ---------------------------------------------------------------------------------------------
+// RT: a comparison's destination has the documented result type. Without AsSameType a
+// comparison produces Bool; handleFuncOpts (strict=false) checks the destination's element
+// type only under AsSameType, so the method itself must compare a supplied destination's
+// Dtype with Bool before the bool kernels write into it. One obligation for the whole family
+// of generated methods (they come from one template).
+func RT(rc *RC) {
+	rc.S.Declare("RT", "comparison destination type: every StdEng comparison that waives handleFuncOpts' type check compares a caller-supplied destination's element type with Bool (the documented result type without AsSameType) before the kernels write into it", 1)
+	var lacking, all []string
+	pos := "-"
+	for _, fi := range rc.P.SortedFuncs() {
+		if fi.Pkg != rc.P.Root || fi.Decl == nil || fi.Decl.Body == nil || !hsMayWaive.MatchString(fi.Key) || strings.HasSuffix(fi.Key, ".prepReduce") {
+			continue
+		}
+		waives := false
+		checks := false
+		ast.Inspect(fi.Decl.Body, func(m ast.Node) bool {
+			switch x := m.(type) {
+			case *ast.CallExpr:
+				if id, ok := x.Fun.(*ast.Ident); ok && id.Name == "handleFuncOpts" && len(x.Args) >= 4 && types.ExprString(x.Args[3]) == "false" {
+					waives = true
+				}
+			case *ast.BinaryExpr:
+				if x.Op == token.EQL || x.Op == token.NEQ {
+					l, r := types.ExprString(x.X), types.ExprString(x.Y)
+					if (strings.Contains(l, "reuse.Dtype()") && r == "Bool") || (strings.Contains(r, "reuse.Dtype()") && l == "Bool") {
+						checks = true
+					}
+				}
+			}
+			return true
+		})
+		if !waives {
+			continue
+		}
+		if pos == "-" {
+			pos = rc.P.Pos(fi.Decl.Pos())
+		}
+		all = append(all, fi.Obj.Name())
+		if !checks {
+			lacking = append(lacking, fi.Obj.Name())
+		}
+	}
+	key := "tensor.(StdEng).<comparisons>#reuse-dtype"
+	switch {
+	case len(all) == 0:
+		rc.S.Undec("RT", key, pos, "no comparison method that waives the type check was found")
+	case len(lacking) > 0:
+		rc.S.Viol("RT", key, pos, fmt.Sprintf("%d of %d comparison methods (%s) never compare the destination's element type with Bool: Lt(a, b, WithReuse(float64 tensor)) without AsSameType writes bools into float64 storage and returns it with a nil error", len(lacking), len(all), strings.Join(lacking, ", "))).Sig = fmt.Sprintf("%d of %d lack the check", len(lacking), len(all))
+	default:
+		rc.S.Ok("RT", key, pos, fmt.Sprintf("%d comparison methods check the destination against Bool", len(all)))
+	}
+}
